@@ -94,3 +94,42 @@ func VC08Bound(stored time.Time, ttl time.Duration, cut time.Time) time.Time {
 	boundRequestToEntryLifetime(middleware.WithResponseMeta(context.Background(), &meta), e)
 	return meta.CutUntil()
 }
+
+// VC08Derived is one record of the stores DERIVED from validated denials: an RFC 8020 cut (Kind "nxcut": every name at
+// or below Name is denied) or one RRset of the RFC 8198 proof index (Kind "soa" / "nsec" / "nsec3").  Shifted tells
+// which clock Expires lives on: true = an instant VC08Shift moves into the past (nxcut), false = an instant of the
+// store's own injectable clock (proof index).
+type VC08Derived struct {
+	Kind    string
+	Name    string
+	Zone    string
+	Expires time.Time
+	Shifted bool
+}
+
+// VC08DerivedDenials lists every record of the two derived denial stores, live or not.
+func VC08DerivedDenials(c *Cache) []VC08Derived {
+	var out []VC08Derived
+	if cc := c.store.nxDomainCuts; cc != nil {
+		cc.mu.RLock()
+		for _, e := range cc.entries {
+			out = append(out, VC08Derived{Kind: "nxcut", Name: e.deniedName, Zone: e.zone, Expires: e.expires, Shifted: true})
+		}
+		cc.mu.RUnlock()
+	}
+	if dp := c.store.denialProofs; dp != nil {
+		dp.mu.RLock()
+		for id, e := range dp.byID {
+			kind := "soa"
+			switch id.kind {
+			case denialProofNSEC:
+				kind = "nsec"
+			case denialProofNSEC3:
+				kind = "nsec3"
+			}
+			out = append(out, VC08Derived{Kind: kind, Name: id.owner, Zone: id.zone, Expires: e.expires})
+		}
+		dp.mu.RUnlock()
+	}
+	return out
+}
